@@ -28,3 +28,5 @@ pub mod sync;
 pub mod thread;
 pub mod time;
 pub mod unix;
+#[cfg(tiny_std_verif)]
+pub mod verif;
